@@ -394,6 +394,41 @@ def _check_symbol_tables(page_name: str, text: str, vios: list) -> int:
     return n
 
 
+def _members_rendered(captured: dict, pages: dict, vios: list, limit_names: set | None) -> int:
+    """View-level faithfulness on real pages: inside the block of member m the symbol placeholder was
+    replaced by the code form of *m's* value (as captured at the generator's own print_law call),
+    and the latex placeholder by its latex form."""
+    from symplyphysics.docs.parse import LawDirectiveType  # pylint: disable=import-outside-toplevel
+    from symplyphysics.docs.printer_code import code_str  # pylint: disable=import-outside-toplevel
+    from symplyphysics.docs.printer_latex import latex_str  # pylint: disable=import-outside-toplevel
+    n = 0
+    for doc_name, members in captured.items():
+        if limit_names is not None and doc_name not in limit_names:
+            continue
+        page = pages.get(doc_name.split(".", 1)[1] + ".rst")
+        if page is None:
+            continue
+        for mem in members:
+            if not mem.directives or mem.name.startswith("_") or f".. py:data:: {mem.name}\n" not in page:
+                continue
+            block = page.split(f".. py:data:: {mem.name}\n", 1)[1].split("\n.. py:", 1)[0]
+            for d in mem.directives:
+                n += 1
+                try:
+                    if d.directive_type == LawDirectiveType.SYMBOL:
+                        want = f":code:`{code_str(mem.value)}`"
+                        ok = want in block
+                    else:
+                        lines = [ln.strip() for ln in latex_str(mem.value).splitlines() if ln.strip()]
+                        want = lines[0] if lines else ""
+                        ok = (not want) or want in block
+                except Exception:  # pylint: disable=broad-except
+                    continue
+                if not ok:
+                    vios.append(V("faithful", f"rendering|{doc_name}.{mem.name}", f"page of {doc_name}: the placeholder of member {mem.name} was not replaced by the rendering of that member ({want[:80]!r} not found in its block)").v)
+    return n
+
+
 def _members_meaning(captured: dict, vios: list, limit_names: set | None) -> int:
     """Object-level faithfulness: the value rendered for each documented member of page(M) means
     the same as the attribute of the really imported module M."""
@@ -510,6 +545,9 @@ def _run_generation(fs, op, vios, faults_count, probes) -> dict:
         pick = [names[(i * 7919 + int(op.get("perm", 0))) % len(names)] for i in range(min(k, len(names)))] if names else []
         n_sym = sum(_check_symbol_tables(n, pages[n], vios) for n in sorted(set(pick)))
         n_formula = _members_meaning(captured, vios, {"symplyphysics." + n[:-4] for n in pick})
+        n_render = _members_rendered(captured, pages, vios, None)
+        info["renderings_checked"] = n_render
+        probes["placeholder rendering located inside its own member block"] = int(n_render > 0)
         info["symbols_checked"] = n_sym
         info["formulas_checked"] = n_formula
         probes["symbol table compared with the really imported module"] = int(n_sym > 0)
